@@ -15,7 +15,9 @@ TRUSTED = [
 ]
 ASSUMPTIONS = []
 
-CUSTOM = [["  ", "| ", "`-", "+-"], ["  ", "│ ", "╰─", "├─", "╰┬", "├┬"], [">", ">", ">"], []]
+CUSTOM = [["  ", "| ", "`-", "+-"], ["  ", "│ ", "╰─", "├─", "╰┬", "├┬"], [">", ">", ">"], [],
+          ["  ", "| ", "`- ", "+- ", "", ""], ["", "", "", ""]]     # also EMPTY connector strings (they are connectors like any other)
+EMPTIED = None      # how the (empty) tree of the current case was emptied: None = never populated
 
 
 def render_table(tree, ser, repr_):
@@ -60,7 +62,7 @@ def one(ctx, out, tree, ser, tj, spec, path, style, is_tree, add_self, title, re
     req = {"op": "format", "t": tj, "path": list(path), "style": style_wire(style), "render": render_table(tree, ser, repr_),
            "join": join, "tree": is_tree, "self": add_self, "title": title, "treeStr": str(tree)}
     case = dict(spec=spec, path=list(path), style=style_wire(style), tree=is_tree, self=add_self, title=title,
-                repr=REPRS.index(repr_), join=join)
+                repr=REPRS.index(repr_), join=join, emptied=EMPTIED)
     reqs.append(req)
     pend.append((case, impl))
 
@@ -75,8 +77,24 @@ def judge(out, case, impl, resp):
         out.disagree(case, f"format: impl {impl!r} != model {resp['model']!r}")
 
 
-def do_tree(ctx, out, spec, typed, styles, rot, full):
+def empty_it(tree, how):
+    """populate the tree and empty it again (an emptied tree is an empty tree)"""
+    a = tree.add("tmp-A")
+    a.add("tmp-a1")
+    if how == "clear":
+        tree.clear()
+    elif how == "remove":
+        a.remove()
+    else:
+        tree.filter(lambda n: False)
+
+
+def do_tree(ctx, out, spec, typed, styles, rot, full, emptied=None):
+    global EMPTIED
     tree = adapter.build(spec, ctx.pool, typed=typed)
+    EMPTIED = emptied
+    if emptied:
+        empty_it(tree, emptied)
     ser = adapter.Serials()
     ser.by_obj[id(tree.system_root)] = 0
     ser.keep.append(tree.system_root)
@@ -131,6 +149,9 @@ def run(ctx):
                 # rotate a third of the styles per tree (every style still meets every shape class many times)
                 k = next(rot)
                 do_tree(ctx, out, spec, False, styles[k % 3 :: 3], rot, full=False)
+    for how in ("clear", "remove", "filter"):
+        do_tree(ctx, out, [], False, styles, rot, full=True, emptied=how)
+        out.dist["emptied:" + how] += 1
     out.extra["exhaustive_scope"] = f"all ordered forests with <= {n_max} nodes (styles rotated for > 3 nodes in the quick tier)"
     # typed trees + deep random trees
     for _ in range(60 if ctx.thorough else 12):
@@ -168,6 +189,10 @@ def replay(ctx, rp):
     out = core.Outcome()
     typed = any(isinstance(l, dict) and l.get("k") for l, _ in spec) and False
     tree = adapter.build(spec, ctx.pool, typed=typed)
+    global EMPTIED
+    EMPTIED = case.get("emptied")
+    if EMPTIED:
+        empty_it(tree, EMPTIED)
     ser = adapter.Serials()
     ser.by_obj[id(tree.system_root)] = 0
     ser.keep.append(tree.system_root)
